@@ -878,6 +878,8 @@ class Interp:
             raise PyRaise(e)
 
     def is_(self, a, b):
+        if a is b and isinstance(a, Sym):
+            return True       # the very same symbolic value
         if isinstance(a, SOpt):
             if b is None:
                 return wrap(a.is_none)
